@@ -55,6 +55,28 @@ def judge(lab, st, step, T, cfg):
     return out
 
 
+def history_of(cfg, nsteps):
+    """the op sequence of a configuration: nsteps Steps, or - for a 'continue' configuration - Steps, one operation that
+    makes the solver re-decorate its objective (the settings stay what they were), then Steps again"""
+    mid = cfg.get('continue')
+    if not mid:
+        return [['Step']] * nsteps
+    k = cfg.get('continue_after', 3)
+    if mid == 'Finalize':
+        op = ['Finalize']
+    elif mid == 'SetPenalty':
+        op = ['SetPenalty', cfg.get('penalty')]
+    elif mid == 'SetStrictRanges':
+        op = ['SetStrictRanges', cfg.get('box') or False, cfg.get('tight'), cfg.get('clip')]
+    elif mid == 'SetConstraints':
+        op = ['SetConstraints', cfg.get('constraint')]
+    elif mid == 'SetEvaluationLimits':
+        op = ['SetEvaluationLimits', 50, None, True]
+    else:
+        raise KeyError(mid)
+    return [['Step']] * k + [op] + [['Step']] * (nsteps - k)
+
+
 def run_config(cfg, nsteps, T):
     st = Settings(cfg)
     try:
@@ -65,18 +87,23 @@ def run_config(cfg, nsteps, T):
         T.count('traces')
         return
     seen_nontrivial = False
-    for k in range(1, nsteps + 1):
+    k = 0
+    for op in history_of(cfg, nsteps):
         try:
-            msg = lab.apply(['Step'])
+            msg = lab.apply(op)
         except solverlab.Horizon:
             break
         except Exception as e:
             T.violate({'clause': 'step_raised', 'solver': cfg['solver'], 'error': type(e).__name__}, {'cfg': cfg, 'steps': k},
-                      'Step %d raised %s: %s | cfg=%s' % (k, type(e).__name__, str(e)[:300], cfg))
+                      '%s after %d Steps raised %s: %s | cfg=%s' % (op[0], k, type(e).__name__, str(e)[:300], cfg))
             break
+        if op[0] != 'Step':
+            T.count('transitions')
+            continue
+        k += 1
         T.count('transitions')
         for sig, detail in judge(lab, st, k, T, cfg):
-            sig = dict(sig, solver=cfg['solver'], bounds_as_constraint=st.bounds_as_constraint(),
+            sig = dict(sig, solver=cfg['solver'], bounds_as_constraint=st.bounds_as_constraint(), continued=bool(cfg.get('continue')),
                        constraint_kind=(cfg.get('constraint') or 'none').split('/')[-1] if cfg.get('constraint') else 'none',
                        reducer=bool(cfg.get('reducer')))
             T.violate(sig, {'cfg': cfg, 'steps': k}, detail + ' | cfg=%s' % {a: b for a, b in cfg.items() if a != 'horizon'})
@@ -172,13 +199,33 @@ def configs(ctx):
                 for seed in seeds:
                     out.append({'solver': solver, 'dim': dim, 'cost': cost, 'x0': x0, 'box': box, 'tight': tight, 'clip': clip,
                                 'constraint': con, 'penalty': pen, 'seed': seed, 'term': 'never', 'horizon': 5000})
-    # array-valued cost with a reducer (and a penalty)
+    # array-valued cost with a reducer (and a penalty); 'vec1' has exactly one component, 'sumsq'/'rms' are not the
+    # identity on a single value
     for solver in solverlab.SOLVERS:
-        for red in ('sum', 'max'):
-            for pen in (None, 'const', 'ramp'):
-                for con in (None, 'clamp/pure'):
-                    out.append({'solver': solver, 'dim': 2, 'cost': 'vec', 'x0': [0.8, -0.4], 'box': None, 'reducer': red,
-                                'constraint': con, 'penalty': pen, 'seed': ctx.seed, 'term': 'never', 'horizon': 5000})
+        for cost in ('vec', 'vec1'):
+            for red in ('sum', 'max', 'sumsq', 'rms'):
+                for pen in (None, 'const', 'ramp'):
+                    for con in (None, 'clamp/pure'):
+                        out.append({'solver': solver, 'dim': 2, 'cost': cost, 'x0': [0.8, -0.4], 'box': None, 'reducer': red,
+                                    'constraint': con, 'penalty': pen, 'seed': ctx.seed, 'term': 'never', 'horizon': 5000})
+    # continued runs: Steps, an operation after which the objective is decorated again, Steps; boxes whose sides the
+    # optimum lies outside of, so that members sit exactly on a bound when the run is continued
+    mids = ['Finalize', 'SetPenalty', 'SetStrictRanges', 'SetConstraints', 'SetEvaluationLimits']
+    for solver in solverlab.SOLVERS:
+        for dim in ((2, 3) if thorough else (2,)):
+            for cost in (('sphere', 'absum', 'steps') if thorough else ('sphere', 'steps')):
+                for box in ('neg', 'shift', 'unit'):
+                    for (t, c) in MODES:
+                        for mid in mids:
+                            for after in ((2, 3, 5) if thorough else (3,)):
+                                for con in (None, 'clamp/pure'):
+                                    if not solverlab.compatible(con, box, dim):
+                                        continue
+                                    for seed in ((ctx.seed, ctx.seed + 1) if solver.startswith('DE') else (ctx.seed,)):
+                                        x0 = solverlab.STARTS[dim][0] if box != 'neg' else [-1.0] * dim
+                                        out.append({'solver': solver, 'dim': dim, 'cost': cost, 'x0': x0, 'box': box, 'tight': t, 'clip': c,
+                                                    'constraint': con, 'penalty': 'ramp' if mid == 'SetPenalty' else None, 'seed': seed,
+                                                    'term': 'never', 'horizon': 5000, 'continue': mid, 'continue_after': after})
     return out
 
 
@@ -198,7 +245,10 @@ def run(ctx):
             items.append((w, mine[i:i + chunk], 0))
     ctx.bounds = {'configurations': len(cfgs), 'wrapper_configurations': len(wcfgs), 'steps_per_run': nsteps,
                   'solvers': list(solverlab.SOLVERS), 'modes(tight,clip)': MODES, 'constraints': CONS, 'penalties': PENS,
-                  'boxes': ['none', 'unit', 'degen', 'onesided'], 'costs': ['sphere', 'absum', 'steps', 'infwall', 'illq', 'vec+reducer']}
+                  'boxes': ['none', 'unit', 'degen', 'onesided'], 'costs': ['sphere', 'absum', 'steps', 'infwall', 'illq', 'vec+reducer', 'vec1+reducer'],
+                  'reducers': ['sum', 'max', 'sumsq', 'rms'],
+                  'continued_runs': {'operations': ['Finalize', 'SetPenalty(same)', 'SetStrictRanges(same)', 'SetConstraints(same)', 'SetEvaluationLimits(new)'],
+                                     'boxes': ['neg', 'shift', 'unit'], 'count': len([c for c in cfgs if c.get('continue')])}}
     ctx.rule = ("full product of the configuration alphabet (incompatible constraint/box pairs removed by a mechanical "
                 "pre-check), every Step boundary judged; non-trivial = the run evaluated the cost to more than one distinct value")
     ctx.assumptions = ['constraints are deterministic, idempotent and map the box into itself (checked mechanically on a grid)',
